@@ -613,18 +613,20 @@ impl AssemblyCode {
                             flags = FlagsState::Y;
                         }
                         AsmMnemonic::DEC | AsmMnemonic::INC => {
+                            // Two operand texts may name the same cell (`a+1` and `a,X`): like a store,
+                            // the instruction voids every belief about memory
                             if let Some(v) = &accumulator {
-                                if v.eq(&inst.dasm_operand) {
+                                if !v.starts_with("#") {
                                     accumulator = None;
                                 }
                             }
                             if let Some(v) = &x_register {
-                                if v.eq(&inst.dasm_operand) {
+                                if !v.starts_with("#") {
                                     x_register = None;
                                 }
                             }
                             if let Some(v) = &y_register {
-                                if v.eq(&inst.dasm_operand) {
+                                if !v.starts_with("#") {
                                     y_register = None;
                                 }
                             }
@@ -736,15 +738,18 @@ impl AssemblyCode {
                         }
                         AsmMnemonic::LSR | AsmMnemonic::ASL | AsmMnemonic::ROL | AsmMnemonic::ROR => {
                             // Shift of the accumulator, or of a memory cell that a register may be known to hold
+                            // (under any operand text)
                             accumulator = None;
-                            if let Some(v) = &x_register {
-                                if v.eq(&inst.dasm_operand) {
-                                    x_register = None;
+                            if !inst.dasm_operand.is_empty() {
+                                if let Some(v) = &x_register {
+                                    if !v.starts_with("#") {
+                                        x_register = None;
+                                    }
                                 }
-                            }
-                            if let Some(v) = &y_register {
-                                if v.eq(&inst.dasm_operand) {
-                                    y_register = None;
+                                if let Some(v) = &y_register {
+                                    if !v.starts_with("#") {
+                                        y_register = None;
+                                    }
                                 }
                             }
                             flags = FlagsState::Unknown;
